@@ -24,6 +24,8 @@ def check(ctx, replay=None):
     th = ctx.tier == "thorough"
     plan = [
         dict(scope="groups" if th else "groups2", mc=["DecisionOK", "PathOK"], mc_maxskips=[255, 3], kw=dict(NSys=3), stride=2 if th else 1, concs=4, expand=0 if th else 6),
+        # every action constant as default and as group action, incl. values that share the action part with the default and carry data bits
+        dict(scope="actions", mc=["DecisionOK", "PathOK"], mc_maxskips=[255], kw=dict(NSys=3), stride=1, concs=3, expand=0 if th else 6),
         dict(scope="many", mc=["DecisionOK", "PathOK"], mc_maxskips=[255, 3] if th else [3], stride=2 if th else 12, concs=3, expand=0 if th else 6),
         # both encodings of the architecture jump at the real limit (jumpN 251..260), with and without conditions
         dict(scope="long1", mc=["DecisionOK", "PathOK"], mc_maxskips=[255], kw=dict(W=8, X32Bit=512, NSys=300), stride=1, concs=4 if th else 2, expand=0 if th else 4),
